@@ -23,6 +23,13 @@ class PadCollector(RefMatcher):
     def spawn(self, emit=None):
         return PadCollector(self.cd, self.u, self.side, self.sink)
 
+    def m_s(self, r, t):
+        if self.side == "r" and isinstance(t, Raw):
+            self.sink.append((self.u, "r-str-raw", r[1], t, None))
+            self.nmatched += 1
+            return
+        return super().m_s(r, t)
+
     def m_pad(self, r, t):
         b = self.un.fixed_bytes(t)
         self.sink.append((self.u, self.side, r[1], t, b))
@@ -63,6 +70,20 @@ def run(prog, rep):
             pc = PadCollector(cd, u, side, pads)
             pc.match(ref, normalise(terms, side))
     n_r = n_w = 0
+    for u, side, nbytes, t, covered in [p for p in pads if p[1] == "r-str-raw"]:
+        # a fixed-width string read as raw bytes: everything it is used for must be BTSString.read (the NUL cut); a hand-made decode
+        # (sniffing the bytes behind the terminator, decoding before cutting) lets the tail decide or fail the result
+        f = u.reader
+        st = t.stmt or t.node
+        name = st.targets[0].id if isinstance(st, ast.Assign) and len(st.targets) == 1 and isinstance(st.targets[0], ast.Name) else None
+        uses = [x for x in ast.walk(f.node) if isinstance(x, ast.Name) and x.id == name and isinstance(x.ctx, ast.Load)] if name else []
+        cut = [c for c in ast.walk(f.node) if isinstance(c, ast.Call) and norm(c.func) in ("BTSString.read",) and len(c.args) >= 2 and isinstance(c.args[1], ast.Name) and c.args[1].id == name]
+        if name and uses and len(uses) == len(cut):
+            rep.ok("nul-cut", f"{u.name}: string field `{nbytes}` is read raw and handed to BTSString.read only")
+        else:
+            rep.fail("nul-cut", f.module.path.name, f.qualname, st, f"the fixed-width string `{nbytes}` is read as raw bytes and decoded by hand (`{norm(head(st))[:50]}` is used outside BTSString.read): "
+                     "bytes behind the first NUL can select the decoding or make it fail", construct=f"{f.qualname} hand-decoded string {nbytes}")
+    pads = [p for p in pads if p[1] != "r-str-raw"]
     for u, side, nbytes, t, covered in pads:
         f = u.writer if side == "w" else u.reader
         mod, fq = f.module.path.name, f.qualname
@@ -151,5 +172,11 @@ def run(prog, rep):
             rep.fail("writer-pad-constant", "tdfTypes.py", "BTSString.write", st, "bytes after the terminator are not constant zeros")
     from .. import primitives as PR
     rep.attempt(PR.tdftype_primitives, prog, rep)
+    # 're-encode to identical bytes': a mutator that rewrites a table entry rewrites it WHOLE through the entry codec (which zeroes
+    # pad and string tail); a partial rewrite lets the old don't-care bytes survive the edit
+    from ..container import Container
+    from .. import mutrules as M
+    ct = Container(prog)
+    rep.attempt(M.dirty_entry, ct, rep, rule="table-pairing")
     rep.attempt(PR.string_codec, prog, rep, with_nul_cut=False)
     rep.not_decided += ["garbage inside declared data fields (not don't-care bytes)"]
